@@ -572,6 +572,48 @@ fn signed_period(s: &SPDC) -> Option<f64> {
   }
 }
 
+/// `config_close`, except in a swept field whose REQUESTED value sits on a 4-decimal rounding tie
+/// (x.xxxx5 to within 1e-6 of a unit of the 4th decimal): the swept setup (value·unit → physical → config
+/// unit) and the configuration-constructed one legitimately round to different neighbours there, so in
+/// that field only, both neighbours of the requested value are accepted.  Applies to paths whose field
+/// is in the requested value's own unit (not THz / external angles).
+fn config_close_at_ties(a: &SPDCConfig, b: &SPDCConfig, eps: f64, requested: &[(&str, f64)]) -> Result<(), String> {
+  let (mut fa, mut fb) = (vec![], vec![]);
+  flatten("", &serde_json::to_value(a).unwrap_or(Value::Null), &mut fa);
+  flatten("", &serde_json::to_value(b).unwrap_or(Value::Null), &mut fb);
+  if fa.len() != fb.len() {
+    return Err("shape".into());
+  }
+  for ((ka, va), (kb, vb)) in fa.iter().zip(fb.iter()) {
+    if ka != kb {
+      return Err(format!("shape:{}!={}", ka, kb));
+    }
+    match (va.as_f64(), vb.as_f64()) {
+      (Some(x), Some(y)) => {
+        if x == y || (x - y).abs() <= eps * x.abs().max(y.abs()) {
+          continue;
+        }
+        let at_tie = requested.iter().any(|(path, v)| {
+          let v = if *path == "periodic_poling.poling_period_um" { v.abs() } else { *v };
+          let t = v * 1e4;
+          let near_tie = (t - t.floor() - 0.5).abs() < 1e-6;
+          let neighbour = |g: f64| on_grid(g) && (g - v).abs() <= 0.5e-4 * (1.0 + 1e-6);
+          field_of(path) == *path && ka.as_str() == *path && near_tie && neighbour(x) && neighbour(y)
+        });
+        if !at_tie {
+          return Err(format!("field={} first={:e} second={:e}", ka, x, y));
+        }
+      }
+      _ => {
+        if va != vb {
+          return Err(format!("field={} first={} second={}", ka, va, vb));
+        }
+      }
+    }
+  }
+  Ok(())
+}
+
 /// the statement's last clause against configurations: every element of a sweep
 /// (p1, periodic_poling.poling_period_um) equals the setup constructed from the base's
 /// configuration with the two swept values written in (period as a magnitude, sign derived)
@@ -631,7 +673,7 @@ fn config_constructed_case(ctx: &mut Ctx, name: &str, base0: &SPDC, p1: &str, a:
     };
     ctx.s("C18.frame", same_sign, "sweep/vs-config/signed-period", &format!("swept_period_m={:?} constructed_period_m={:?} {}", sp, ip, kdet));
     match (guard(|| swept[k].clone().as_config()), guard(|| ind.clone().as_config())) {
-      (Some(cs), Some(ci)) => match config_close(&cs, &ci, 1e-9) {
+      (Some(cs), Some(ci)) => match config_close_at_ties(&cs, &ci, 1e-9, &[(p1, *v1), (p2, *v2)]) {
         Ok(()) => ctx.s("C18.frame", true, "sweep/vs-config/config", &kdet),
         Err(why) => ctx.s("C18.frame", false, "sweep/vs-config/config", &format!("{} {}", why, kdet)),
       },
@@ -735,7 +777,178 @@ fn jsi_center(s: &SPDC, integ: Integrator) -> f64 {
   }
 }
 
+/// sweep shapes whose point count sits on, just below and just above the sizes at which block-wise /
+/// chunked / parallel evaluation changes behaviour (64, 128, 256, 512, 1024 …), the shapes named in the
+/// crate's documentation style (17×17, 20×20, 24×12, 50×50), and the degenerate ones (1×n, n×1, 0)
+fn resonance_shapes(thorough: bool) -> Vec<(usize, usize)> {
+  let mut v = vec![
+    (0, 0), (0, 300), (300, 0), (1, 1), (1, 257), (257, 1), (1, 1000),
+    (9, 7), (8, 8), (13, 5), (127, 1), (16, 8), (43, 3),
+    (15, 17), (16, 16), (17, 17), (24, 12), (20, 20), (32, 16), (27, 19),
+    (33, 31), (32, 32), (41, 25),
+  ];
+  if thorough {
+    v.extend([
+      (255, 1), (1, 256), (256, 1), (2, 128), (128, 2), (3, 171), (255, 3), (256, 3), (1000, 1), (1, 1025), (1025, 1),
+      (50, 50), (23, 89), (64, 32), (3, 683), (64, 64), (17, 241), (100, 100), (5, 51), (51, 5), (19, 27), (12, 24),
+    ]);
+  }
+  v
+}
+
+fn lin(a: f64, b: f64, n: usize, i: usize) -> f64 {
+  if n <= 1 {
+    a
+  } else {
+    a + (b - a) * (i as f64 / (n - 1) as f64)
+  }
+}
+
+/// One sweep of the given shape over two hand-applicable paths around the base's own values: number and
+/// order of the setups, and EVERY value of `jsi_values` / `jsi_values_normalized` against the setup
+/// constructed individually for that grid point (value of cell k = point (k mod nx, k div nx)).
+fn shape_case(ctx: &mut Ctx, name: &str, base: &SPDC, p1: &str, p2: &str, nx: usize, ny: usize, integ: Integrator, raw_setters: bool) {
+  let c = cfg_value(base).unwrap_or(Value::Null);
+  let mut f = vec![];
+  flatten("", &c, &mut f);
+  let mut span = |p: &str| -> (f64, f64) {
+    let x0 = f.iter().find(|(k, _)| *k == field_of(p)).and_then(|x| x.1.as_f64()).unwrap_or(1.0);
+    let x0 = if p.ends_with("frequency_thz") { 299_792.458 / x0 } else { x0 };
+    let w = if p.ends_with("_deg") {
+      0.3
+    } else if p.ends_with("temperature_c") {
+      5.0
+    } else if p.ends_with("position_um") {
+      200.0
+    } else if p.ends_with("wavelength_nm") || p.ends_with("frequency_thz") {
+      0.0005 * x0.abs()
+    } else {
+      0.2 * x0.abs().max(1e-3)
+    };
+    (x0 - w * (0.5 + 0.5 * ctx.rng.unit()), x0 + w * (0.5 + 0.5 * ctx.rng.unit()))
+  };
+  let (a1, b1) = span(p1);
+  let (a2, b2) = span(p2);
+  let steps = Steps2D((a1, b1, nx), (a2, b2, ny));
+  let det = format!("base={} p1={} p2={} x=({:?},{:?},{}) y=({:?},{:?},{}) points={}", name, p1, p2, a1, b1, nx, a2, b2, ny, nx * ny);
+  ctx.count(&format!("shape/points={}", nx * ny));
+  let make = |b: &SPDC| -> Result<SPDCIter, String> {
+    if raw_setters {
+      // the same sweep through `SPDCIter::new` with hand-written setter closures
+      let (q1, q2) = (p1.to_string(), p2.to_string());
+      Ok(SPDCIter::new(
+        b.clone(),
+        (
+          Box::new(move |s: &mut SPDC, v: f64| {
+            apply_by_hand(s, &q1, v);
+          }),
+          Box::new(move |s: &mut SPDC, v: f64| {
+            apply_by_hand(s, &q2, v);
+          }),
+        ),
+        steps,
+      ))
+    } else {
+      SPDCIter::try_new(b.clone(), p1, p2, steps)
+    }
+  };
+  let route = if raw_setters { "SPDCIter::new" } else { "SPDCIter::try_new" };
+  // number and order of the setups
+  let all = match guard(|| make(base).map(|it| it.into_iter().collect::<Vec<SPDC>>())) {
+    Some(Ok(v)) => v,
+    _ => {
+      ctx.s("C18.order", false, "sweep/shape/failed", &format!("route={} {}", route, det));
+      return;
+    }
+  };
+  let mut ok = all.len() == nx * ny;
+  let mut why = format!("count={}", all.len());
+  if ok {
+    for (k, s) in all.iter().enumerate() {
+      let (wx, wy) = (lin(a1, b1, nx, k % nx), lin(a2, b2, ny, k / nx));
+      let (g1, g2) = (physical_of(s, p1), physical_of(s, p2));
+      if !matches!((g1, g2), (Some(x), Some(y)) if physical_matches(p1, wx, x) && physical_matches(p2, wy, y)) {
+        ok = false;
+        why = format!("k={} column={} row={} got=({:?},{:?}) want=({:?},{:?})", k, k % nx, k / nx, g1, g2, wx, wy);
+        break;
+      }
+    }
+  }
+  ctx.s("C18.order", ok, "sweep/shape/row-major-first-fastest", &format!("{} route={} {}", why, route, det));
+  // the individually constructed setups, point by point
+  let want: Option<Vec<f64>> = guard(|| {
+    (0..nx * ny)
+      .map(|k| {
+        let mut s = base.clone();
+        apply_by_hand(&mut s, p1, lin(a1, b1, nx, k % nx));
+        apply_by_hand(&mut s, p2, lin(a2, b2, ny, k / nx));
+        jsi_center(&s, integ)
+      })
+      .collect()
+  });
+  let want = match want {
+    Some(w) => w,
+    None => {
+      ctx.count("shape/by-hand-panic");
+      return;
+    }
+  };
+  let close = |x: f64, y: f64| x == y || (x - y).abs() <= 1e-6 * x.abs().max(y.abs()) || (x.is_nan() && y.is_nan());
+  let compare = |ctx: &mut Ctx, sig: &str, got: Option<Result<Vec<f64>, String>>, want: &[f64]| match got {
+    Some(Ok(a)) => {
+      let bad = if a.len() != want.len() { Some(usize::MAX) } else { (0..a.len()).find(|k| !close(a[*k], want[*k])) };
+      let nbad = if a.len() == want.len() { (0..a.len()).filter(|k| !close(a[*k], want[*k])).count() } else { 0 };
+      match bad {
+        None => ctx.s("C18.values", true, sig, &format!("route={} {}", route, det)),
+        Some(usize::MAX) => ctx.s("C18.values", false, sig, &format!("count={} want={} route={} {}", a.len(), want.len(), route, det)),
+        Some(k) => ctx.s(
+          "C18.values",
+          false,
+          sig,
+          &format!("k={} column={} row={} swept={:e} individually={:e} cells_differing={} route={} {}", k, k % nx, k / nx, a[k], want[k], nbad, route, det),
+        ),
+      }
+    }
+    None => ctx.s("C18.values", false, &format!("{}-panic", sig), &format!("route={} {}", route, det)),
+    Some(Err(_)) => ctx.s("C18.values", false, &format!("{}-failed", sig), &format!("route={} {}", route, det)),
+  };
+  let got = guard(|| make(base).map(|it| it.jsi_values(integ)));
+  compare(ctx, "sweep/shape/jsi-values", got, &want);
+  let lit = want.iter().filter(|x| **x > 0.).count();
+  ctx.count(if 2 * lit > want.len() { "shape/mostly-lit" } else if lit > 0 { "shape/partly-lit" } else { "shape/dark-or-empty" });
+  // normalised to the centre of the base's optimum setup (needs one)
+  let centre = guard(|| {
+    let opt = base.clone().try_as_optimum().ok()?;
+    Some(spdcalc::jsa_raw(opt.signal.frequency(), opt.idler.frequency(), &opt, integ).norm_sqr() * spdcalc::jsi_normalization(opt.signal.frequency(), opt.idler.frequency(), &opt))
+  })
+  .flatten();
+  if let Some(centre) = centre {
+    let wantn: Option<Vec<f64>> = guard(|| {
+      (0..nx * ny)
+        .map(|k| {
+          let mut s = base.clone();
+          apply_by_hand(&mut s, p1, lin(a1, b1, nx, k % nx));
+          apply_by_hand(&mut s, p2, lin(a2, b2, ny, k / nx));
+          let j = spdcalc::jsa_raw(s.signal.frequency(), s.idler.frequency(), &s, integ).norm_sqr();
+          if j == 0. {
+            0.
+          } else {
+            j * *(spdcalc::jsi_normalization(s.signal.frequency(), s.idler.frequency(), &s) / centre)
+          }
+        })
+        .collect()
+    });
+    if let Some(wantn) = wantn {
+      let gotn = guard(|| make(base).map(|it| it.jsi_values_normalized(integ)));
+      compare(ctx, "sweep/shape/jsi-values-normalized", gotn, &wantn);
+    }
+  }
+}
+
 pub fn run(ctx: &mut Ctx) {
+  if std::env::var("VERIF_PANIC_LOG").is_ok() {
+    record_panic_sites(); // (debugging aid: panic messages on stderr)
+  }
   let bases = base_setups(ctx);
   for (n, _) in bases.iter() {
     ctx.count(&format!("base/{}", n));
@@ -865,6 +1078,12 @@ pub fn run(ctx: &mut Ctx) {
   } else {
     vec![(1, 1), (1, 4), (5, 1), (2, 2), (3, 2), (7, 5), (0, 3), (4, 0)]
   };
+  // (larger ones too, through the model: below / on / above a block of 256, one long row, one long column)
+  let mut shapes = shapes;
+  shapes.extend([(15, 17), (16, 16), (17, 17), (257, 1), (1, 129)]);
+  if ctx.thorough {
+    shapes.extend([(20, 20), (24, 12), (33, 31), (1, 513)]);
+  }
   for (nx, ny) in shapes {
     let (name, base) = ctx.rng.pick(&bases).clone();
     let p1 = *ctx.rng.pick(&direct);
@@ -1050,6 +1269,31 @@ pub fn run(ctx: &mut Ctx) {
       }
       (None, _) => ctx.s("C18.values", false, "sweep/jsi-values-panic", &det),
       _ => ctx.s("C18.values", false, "sweep/jsi-values-failed", &det),
+    }
+  }
+
+  // ---- all sweep shapes: point counts around 64 / 128 / 256 / 512 / 1024 (…), 1×n, n×1, empty; every cell of
+  // jsi_values and jsi_values_normalized against the individually constructed setup (cheap integrator)
+  let cheap = Integrator::Simpson { divs: 6 }; // (the smallest the crate accepts)
+  let pairs: [(&str, &str); 8] = [
+    ("crystal.theta_deg", "signal.waist_um"),
+    ("signal.waist_um", "deff_pm_per_volt"),
+    ("crystal.length_um", "pump.waist_um"),
+    ("crystal.temperature_c", "idler.waist_um"),
+    ("pump.bandwidth_nm", "crystal.theta_deg"),
+    ("signal.waist_position_um", "crystal.length_um"),
+    ("idler.waist_um", "signal.theta_deg"),
+    ("deff_pm_per_volt", "signal.wavelength_nm"),
+  ];
+  for (i, (nx, ny)) in resonance_shapes(ctx.thorough).into_iter().enumerate() {
+    // the default setup first (lit at its centre), a seeded base as well in thorough
+    let (p1, p2) = pairs[(i + ctx.rng.below(pairs.len())) % pairs.len()];
+    let (name, base) = bases[0].clone();
+    shape_case(ctx, &name, &base, p1, p2, nx, ny, cheap, i % 7 == 3);
+    if ctx.thorough || i % 4 == 0 {
+      let (name, base) = ctx.rng.pick(&bases).clone();
+      let (p1, p2) = *ctx.rng.pick(&pairs);
+      shape_case(ctx, &name, &base, p1, p2, nx, ny, cheap, false);
     }
   }
 }
